@@ -1,8 +1,11 @@
-(* C09 - Machine-readable copyright files are recognised paragraph by paragraph (partial:
-   the paragraph structure, classification, routing and typing of fields, the copyright
-   statement converter and validity are proved; how continuation lines of a license or comment
-   decode is C20; documents are those of the deb822 grammar of C06 whose paragraphs all
-   classify as header, files or license and have no repeated field name). *)
+(* C09 - Machine-readable copyright files are recognised paragraph by paragraph.
+   Proved on the property's quantifier - documents of the deb822 grammar of C06 whose paragraphs
+   classify as header, files or license and have no repeated field name: the paragraph structure,
+   classification, routing and typing of every field, the copyright statement converter (for every
+   value), file patterns, license name / text split, extra data, validity.  How continuation lines
+   of a license or comment decode is C20.  The year-range test is a definition of the model
+   (digits / ASCII punctuation with a digit), co-executed on all short strings.  Documents with
+   repeated names or needing recovery are outside this property (C11, C12). *)
 From Coq Require Import String.
 From Coq Require Import NArith List Bool.
 From DI Require Import Result PyStr Codec Deb822 Debcon Copyright Grammar822 Grammar822Facts Dep5Facts DepsParseFacts.
